@@ -9,6 +9,8 @@
    same lock.  [CEntered a b al]: the machine moved from a to b while allow-consensus was al. *)
 From Coq Require Import List Bool.
 From MV Require Import C09.Model C09.Proofs.
+From MV Require Gen.C09.
+From Coq Require Import ZArith.
 Import ListNotations.
 
 (* Every change of the current state, in every schedule, is along an allowed edge: to a different state
@@ -70,6 +72,11 @@ Proof.
   exists (mkM Syncing true YNone), (mkCtx Syncing Consensus), default_outs, (Some false).
   vm_compute. repeat split.
 Qed.
+
+(* the retry bound of the modelled ensureSwitchState (n > 3 => broken, n reset to 0) is the code's: the integer
+   literals of States.ensureSwitchState, regenerated from the Go source on every run *)
+Theorem C09_retry_limit_is_code : Gen.C09.ensure_switch_ints = [0; 3]%Z.
+Proof. reflexivity. Qed.
 
 (* ---- non-vacuity *)
 
